@@ -59,6 +59,21 @@ Theorem C10_decode_truncated :
     wf f -> strict_prefix b (encode f) -> wf_chunks cs -> concat cs = b -> decode cs = Err ReadError.
 Proof. exact decode_truncated. Qed.
 
+(* Reads that return 0 bytes.  Every list of chunks either has no empty chunk (the theorems above) or is
+   cs1 ++ [] :: cs2; the decoder then answers as on cs1 alone — a read of 0 bytes is end of input — and leaves cs2
+   untouched.  So the behaviour under EVERY scripted reader is determined; in particular a 0-byte read before the
+   frame is complete is a read error. *)
+Theorem C10_decode_zero_read :
+  forall cs1 cs2 : chunks,
+    decode (cs1 ++ [] :: cs2) =
+    match decode cs1 with Ok (f, r) => Ok (f, r ++ [] :: cs2) | Err e => Err e | Crash w => Crash w end.
+Proof. exact decode_zero_read. Qed.
+
+Theorem C10_decode_zero_read_truncated :
+  forall (f : frame) (b : bytes) (cs1 cs2 : chunks),
+    wf f -> strict_prefix b (encode f) -> wf_chunks cs1 -> concat cs1 = b -> decode (cs1 ++ [] :: cs2) = Err ReadError.
+Proof. exact decode_zero_read_truncated. Qed.
+
 (* Reserved opcodes (all ten: 3-7 and 11-15) are rejected, whatever follows the header and however it is split;
    the six defined opcodes are never rejected as invalid. *)
 Theorem C10_reserved_opcode_rejected :
@@ -193,6 +208,8 @@ Print Assumptions C10_decode_any_layout.
 Print Assumptions C10_decode_sound.
 Print Assumptions C10_decode_stream.
 Print Assumptions C10_decode_truncated.
+Print Assumptions C10_decode_zero_read.
+Print Assumptions C10_decode_zero_read_truncated.
 Print Assumptions C10_reserved_opcode_rejected.
 Print Assumptions C10_valid_opcode_not_rejected.
 Print Assumptions C10_two_byte_headers.
